@@ -10,7 +10,7 @@ import sys
 from concurrent.futures import ThreadPoolExecutor
 
 V = "/verif"
-EXTRA = {"C04r4-B": ["C08"], "C16r3-B": ["C04"], "C11r3-A": ["C17"], "C13r2-B": ["C14"], "C16r2-B": ["C04"], "C20r2-A": ["C02"], "C11r2-B": ["C20"], "C09r2-A": ["C01"], "C05-A": ["C04"], "C05-B": ["C04", "C06"], "C04-B": ["C06"], "C08-A": [], "C15-B": []}
+EXTRA = {"C01r5-A": ["C20"], "C04r4-B": ["C08"], "C16r3-B": ["C04"], "C11r3-A": ["C17"], "C13r2-B": ["C14"], "C16r2-B": ["C04"], "C20r2-A": ["C02"], "C11r2-B": ["C20"], "C09r2-A": ["C01"], "C05-A": ["C04"], "C05-B": ["C04", "C06"], "C04-B": ["C06"], "C08-A": [], "C15-B": []}
 
 
 def run(name):
